@@ -329,11 +329,13 @@ class BlackbirdProgram:
                 func = sym.lambdify(par, v)
 
                 try:
-                    vals = {str(p): kwargs[str(p)] for p in par}
+                    vals = [kwargs[str(p)] for p in par]
                 except KeyError:
                     raise ValueError("Invalid value for free parameter provided")
 
-                return func(**vals)
+                # positional call, in the order of ``par``: lambdify renames arguments
+                # that are not valid Python argument names (e.g. a parameter called lambda)
+                return func(*vals)
 
             if isinstance(v, list):
                 return [_instantiate(i) for i in v]
